@@ -576,6 +576,37 @@ def rule_reencode_on_removal(ctx):
                 if src_ok:
                     ok = True
     r.check(ok and bool(af_rm), rm.id, "attacked-not-reencoded", "arguments attacked by the removed one are re-encoded (ids collected before the removal)", "after remove_argument the arguments it attacked keep constraints that still mention the removed attacker", rm.loc())
+    # the list of arguments to re-encode leaves out the removed argument itself and nothing else
+    from ..prov import prov as _pv, subterms as _sub, show as _show
+
+    for x in prog.with_closures(rm):
+        for s in x.calls():
+            c = callee_of(s)
+            if not (c and callee_matches(c, r"Iterator::(for_each|try_for_each)$")) or not any(strip_generics(callee_name(callee_of(y)) or "") in fam for fa in (c.get("fn_args") or []) for y in (prog.lib(fa).calls() if prog.lib(fa) else [])):
+                continue
+            for e in _pv(prog, x, s.node["args"][0]):
+                if not any(isinstance(t, tuple) and t[0] == "call" and re.search(r"iter_attacks_from(_id)?$", t[1]) for t in _sub(e)):
+                    continue
+                for t in _sub(e):
+                    if not (isinstance(t, tuple) and t[0] == "call" and re.search(r"Iterator::(filter|filter_map|skip|skip_while|take|take_while|step_by)$", t[1])):
+                        continue
+                    nm = t[1].rsplit("::", 1)[-1]
+                    verdict = None
+                    if nm == "filter" and t[3]:
+                        clo = prog.lib(t[3][0])
+                        rets = list(_pv(prog, clo, {"l": 0, "p": []})) if clo else []
+                        if rets and all(q[0] == "op" and q[1] == "Ne" and len(q[2]) == 2 and any(isinstance(a, tuple) and a[0] == "elem" for a in q[2]) and any(isinstance(a, tuple) and a[0] == "call" and a[1].endswith("Label::id") and any(isinstance(z, tuple) and z[0] == "call" and re.search(r"get_argument$|get_label$", z[1]) for z in _sub(a)) for a in q[2]) for q in rets):
+                            verdict = True
+                        elif rets and all(q[0] == "op" for q in rets):
+                            verdict = False
+                    elif nm != "filter":
+                        verdict = False
+                    if verdict is True:
+                        r.ok(rm.id + "|list", "the list leaves out the removed argument itself only", s.loc())
+                    elif verdict is False:
+                        r.violation(rm.id + "|list", "attacked-list-filtered:%s" % nm, "the arguments to re-encode after a removal are the targets of the removed argument's attacks, cut down by `%s` (%s): some of them keep constraints that mention the removed attacker" % (nm, _show(t)[-90:]), s.loc())
+                    else:
+                        r.ok(rm.id + "|list", "NOT decided: the filter on the list of arguments to re-encode is not of a recognised form", s.loc())
     # (ii) callers outside the encoder (the buffered replay)
     n = 0
     for b in prog.lib_bodies():
